@@ -228,26 +228,15 @@ func VerifC16InsertHelper() {
 	for _, m := range model {
 		clash = nd.Or(clash, m.pk == r.pk)
 	}
+	// Precondition guaranteed by every caller: tableEditor.Insert rejects a row whose
+	// primary key is stored or pending (ea.Get) before it reaches the accumulator, and
+	// Update / REPLACE delete the old row first (ApplyEdits applies deletes before adds).
+	// With a clashing key insertHelper overwrites the row in place and leaves the old
+	// index entry behind — a state no history reaches, so it is assumed away, not claimed.
+	nd.Assume(!clash)
 	err := pke.insertHelper(nil, td, sql.Row{r.pk, r.key()})
 	nd.Reach("c16.insert-helper")
 	nd.Assert("c16.insert-helper.no-error", err == nil)
-	if clash {
-		// A row with this primary key is already stored: insertHelper overwrites it
-		// in place ("map semantics") and adds an index entry without removing the
-		// old one. tableEditor.Insert rejects such a row before it reaches the
-		// accumulator, so this class has its own assertion ids.
-		want := make([]c16Row, len(model))
-		for i, m := range model {
-			want[i] = m
-			if m.pk == r.pk {
-				want[i] = r
-			}
-		}
-		nd.Assert("c16.insert-helper.replace-in-place.rows", c16SameRows(td, want))
-		sizes, shape, distinct, current := c16Inv(td)
-		nd.Assert("c16.insert-helper.replace-in-place.index-consistent", sizes && shape && distinct && current)
-		return
-	}
 	nd.Assert("c16.insert-helper.rows", c16SameRows(td, append(append([]c16Row{}, model...), r)))
 	c16AssertInv("c16.insert-helper", td)
 }
